@@ -786,6 +786,7 @@ func (envs *Manager) TeardownEnvironment(environmentId uid.ID, force bool) error
 	})
 
 	// we trigger all cleanup hooks, first calls, then tasks immediately after
+	allCleanupTaskHooks := make(task.Tasks, 0)
 	for _, weight := range allWeights {
 		hooksForWeight, ok := hooksMapForDestroy[weight]
 		if ok {
@@ -793,6 +794,9 @@ func (envs *Manager) TeardownEnvironment(environmentId uid.ID, force bool) error
 
 			// calls done, we start the task hooks...
 			cleanupTaskHooks := hooksForWeight.FilterTasks()
+
+			// ...all of which must be released in the end, triggered or not
+			allCleanupTaskHooks = append(allCleanupTaskHooks, cleanupTaskHooks...)
 
 			// ...but only if their parent role is still ACTIVE (i.e. not killed or executor failed)
 			cleanupTaskHooks = cleanupTaskHooks.Filtered(func(t *task.Task) bool {
@@ -807,11 +811,11 @@ func (envs *Manager) TeardownEnvironment(environmentId uid.ID, force bool) error
 					WithError(err).
 					Warn("environment post-destroy hooks failed")
 			}
-
-			// and then we kill them too
-			taskmanMessage = task.NewEnvironmentMessage(taskop.ReleaseTasks, environmentId, cleanupTaskHooks, nil)
 		}
 	}
+
+	// and then we release them too: the hook tasks of every weight
+	taskmanMessage = task.NewEnvironmentMessage(taskop.ReleaseTasks, environmentId, allCleanupTaskHooks, nil)
 
 	envs.cancelCallsPendingAwait(env)
 
